@@ -656,10 +656,6 @@ but no other interpretation is applied
             while LBB:                  # LBB: Logical Block Block[s]
                 logical, ifBlock, elseBlock = LBB[0], LBB[1], LBB[2:]
 
-                if len(elseBlock) > 13:
-                    print("Oh dear. Please type w at the pdb prompt and notify rhl@astro.princeton.edu")
-                    import pdb; pdb.set_trace()
-
                 parser = VersionParser(logical)
                 parser.define("flavor", flavor)
                 if setupType:
